@@ -1,6 +1,6 @@
 """C01 — accepted programs run safely: no crash, tag confusion or bad memory access."""
 from common import *
-import vm_corr, vm_checks
+import vm_corr, vm_checks, op_corr
 
 PROP_MODULE = "NeverModel.Props.C01"
 
@@ -53,6 +53,8 @@ def check(tier, seed):
         return st in ("ok", "both-crash")
     vm_checks.sweep(h, rep, probes, "c01probe", {}, on_probe, max_report=10)
     h.close()
+    # single-handler differential: every non-arithmetic handler x operand kinds x values (nil references, boundary integers)
+    opst = op_corr.run_all(rep, tier, seed)
     opc = vm_checks.opcode_coverage(stats)
     rep.cov.update(trusted_base=["Lean 4.33 kernel", "axioms: propext, Classical.choice, Quot.sound", "trace harness h_vm.c + vm_corr.py comparator",
                                  "gcc, ASan/UBSan runtime, libm (math builtin results and fenv flags enter the model as oracle inputs)"],
@@ -60,7 +62,8 @@ def check(tier, seed):
                    rule="every sample program and every seeded family program x entry arguments is run on the real VM (ASan/UBSan, asserts on) and replayed instruction by instruction on the Lean VM model; non-trivial = executed and compared to the end",
                    samples=[dict(name=j["name"], outcome=io["kind"], status=st) for (j, r, st, det, io) in res[:3]],
                    statuses={k: v for k, v in stats.items() if not k.startswith("_")}, instructions_replayed=stats.get("_steps", 0),
-                   opcodes_executed=opc, crash_signatures=crashes)
+                   opcodes_executed=opc, crash_signatures=crashes, single_handler_differential={k: v for k, v in opst.items() if k != "by_handler"},
+                   single_handler_cases_per_handler=opst["by_handler"])
     rep.assumptions = ["static typing => operand tags is validated dynamically on every replayed step (model getters fail on a wrong tag), not proved",
                        "FFI opcodes are not modelled (programs using them are skipped and counted)"]
     return rep.finish()
